@@ -81,6 +81,7 @@ func ZZ_C04_witness() {
 type zzFaultStor struct {
 	storage.Storage
 	failWrite, failSync *bool // armed faults for manifest writers (one shot)
+	failSyncN           *int  // the next *failSyncN manifest syncs fail (nil: none)
 }
 
 type zzFaultWriter struct {
@@ -105,6 +106,10 @@ func (w *zzFaultWriter) Write(p []byte) (int, error) {
 }
 
 func (w *zzFaultWriter) Sync() error {
+	if w.s.failSyncN != nil && *w.s.failSyncN > 0 {
+		*w.s.failSyncN--
+		return errZZFault
+	}
 	if *w.s.failSync {
 		*w.s.failSync = false
 		return errZZFault
